@@ -418,9 +418,21 @@ type op struct {
 	PE   tutil.PE   // child
 	Val  *tbin.Val
 	Trig string
+	N    int // fill: number of fresh keys inserted one after the other
+}
+
+// fillKey: the i-th fresh key of a fill op.
+func fillKey(kt tbin.Type, i int) tutil.PE {
+	if kt == tbin.STRING {
+		return tutil.PE{K: 's', S: fmt.Sprintf("fill%03d", i)}
+	}
+	return tutil.PE{K: 'k', I: 5000 + i}
 }
 
 func (o op) String() string {
+	if o.Kind == "fill" {
+		return fmt.Sprintf("fill(%s with %d fresh keys)", tutil.PathString(o.At), o.N)
+	}
 	s := fmt.Sprintf("%s(%s/%s", o.Kind, tutil.PathString(o.At), o.PE)
 	if o.Val != nil {
 		s += " := " + o.Val.String()
@@ -489,10 +501,10 @@ func alphabet(m *tbin.Val, s *tbin.Shape, cfg config, touched map[string]bool, i
 			if len(ch) > 16 && i%7 != 0 {
 				continue
 			}
-			if c.PE.K == 'b' {
-				continue // no keyed setter for non-string/int keys
-			}
 			leafOK := isLeaf(c.V) || !cfg.recurse
+			if c.PE.K == 'b' {
+				leafOK = false // no keyed setter for non-string/int keys: such children can only be cleared
+			}
 			if c.S != nil && leafOK {
 				nv := fresh(c.S, 1, 3+i)
 				kind := "set"
@@ -502,6 +514,11 @@ func alphabet(m *tbin.Val, s *tbin.Shape, cfg config, touched map[string]bool, i
 				ops = append(ops, op{Kind: kind, At: cp.path, PE: c.PE, Val: nv, Trig: "present-in:" + k})
 			}
 			ops = append(ops, op{Kind: "clear", At: cp.path, PE: c.PE, Trig: "present-in:" + k})
+		}
+		// filling: more fresh keys than the map has entries, one after the other (a table sized for the loaded
+		// entries runs full)
+		if cp.v.T == tbin.MAP && cp.s != nil && len(cp.path) == 0 && (cp.v.KT == tbin.STRING || cp.v.KT == tbin.I32 || cp.v.KT == tbin.I64 || cp.v.KT == tbin.I16) {
+			ops = append(ops, op{Kind: "fill", At: cp.path, N: len(ch) + 1, Val: fresh(cp.s.Elem, 1, 9), Trig: "fill-in:" + k})
 		}
 		// insertion of an absent child
 		switch cp.v.T {
@@ -569,6 +586,21 @@ func applyModel(m *tbin.Val, o op) *tbin.Val {
 		if cur == nil {
 			return nil
 		}
+	}
+	if o.Kind == "fill" {
+		for i := 0; i < o.N; i++ {
+			pe := fillKey(cur.KT, i)
+			if indexOf(cur, pe) >= 0 {
+				return nil
+			}
+			k := tbin.Str(pe.S)
+			if pe.K == 'k' {
+				k = &tbin.Val{T: cur.KT, I: int64(pe.I)}
+			}
+			cur.K = append(cur.K, k)
+			cur.L = append(cur.L, tbin.Clone(o.Val))
+		}
+		return w
 	}
 	idx := indexOf(cur, o.PE)
 	switch o.Kind {
@@ -653,6 +685,10 @@ func indexOf(v *tbin.Val, e tutil.PE) int {
 				if k == e.I {
 					return i
 				}
+			case 'b':
+				if bytes.Equal(tbin.Bytes(tbin.Clone(v.K[i])), e.B) {
+					return i
+				}
 			}
 		}
 	}
@@ -668,6 +704,15 @@ func applyImpl(tree *generic.PathNode, o op, cfg config, cleared map[string][]in
 	}
 	node := func(v *tbin.Val) generic.Node { return generic.NewNode(thrift.Type(v.T), tbin.Bytes(tbin.Clone(v))) }
 	switch o.Kind {
+	case "fill":
+		for i := 0; i < o.N && err == nil; i++ {
+			core.Alive()
+			if pe := fillKey(tbin.Type(at.Node.KeyType()), i); pe.K == 's' {
+				_, err = at.SetByStr(pe.S, node(o.Val), opts)
+			} else {
+				_, err = at.SetByInt(pe.I, node(o.Val), opts)
+			}
+		}
 	case "set", "insert":
 		switch o.PE.K {
 		case 'f':
@@ -736,6 +781,9 @@ func run(val value, cfg config, maxDepth int, all []value) core.Result {
 			for _, po := range h.ops {
 				if len(po.At) == 0 {
 					touched[po.PE.String()] = true
+					for i := 0; po.Kind == "fill" && i < po.N; i++ {
+						touched[fillKey(h.model.KT, i).String()] = true
+					}
 				}
 			}
 			for _, o := range alphabet(h.model, val.s, cfg, touched, val.v) {
